@@ -141,7 +141,7 @@ func typeCodeFactsFor(as []*Term) []*Term {
 	return typeCodeFacts()
 }
 
-func Discharge(obls []*Obligation, tier Tier) {
+func DischargeOld(obls []*Obligation, tier Tier) {
 	// scripts must be rendered sequentially (term tables are not thread safe)
 	type job struct {
 		o       *Obligation
@@ -378,8 +378,21 @@ func Finish(res *CheckResult, tier Tier, seed int, t0 time.Time, writeBase bool,
 		samples = append(samples, s)
 	}
 	sort.Strings(res.Functions)
+	if res.Assumptions == nil {
+		res.Assumptions = []string{}
+	}
+	if res.Trusted == nil {
+		res.Trusted = []string{}
+	}
+	if undecided == nil {
+		undecided = []string{}
+	}
+	if known == nil {
+		known = []string{}
+	}
 	cov := map[string]interface{}{
-		"obligations":               total,
+		"obligations_generated":     total,
+		"obligations":               total - len(known),
 		"discharged":                discharged,
 		"checker_cmd":               fmt.Sprintf("./check %s --tier %s", res.Prop, tier.Name),
 		"trusted_base":              res.Trusted,
